@@ -678,6 +678,15 @@ func (e *Exec) selectElem(elems []Value, idx *Term) Value {
 	}
 	if len(elems) > 0 {
 		if _, ok := elems[0].(*Term); ok {
+			if len(elems) > 256 && idx.isConstTree() && len(e.ctx.LeafValues(idx)) <= 64 {
+				// a guarded value set: select per leaf instead of per element
+				return e.ctx.mapLeaves(idx, func(x *Term) *Term {
+					if p := x.SVal(); p >= 0 && p < int64(len(elems)) {
+						return elems[p].(*Term)
+					}
+					return elems[len(elems)-1].(*Term)
+				}, map[int]*Term{})
+			}
 			acc := elems[len(elems)-1].(*Term)
 			for i := len(elems) - 2; i >= 0; i-- {
 				acc = e.ctx.Ite(e.ctx.Eq(idx, e.ctx.Int(int64(i))), elems[i].(*Term), acc)
@@ -708,7 +717,7 @@ func (e *Exec) byteAt(b []*Term, pos *Term) *Term {
 	if len(b) == 0 {
 		return e.ctx.BV(0, 8)
 	}
-	if pos.isConstTree() && len(e.ctx.LeafValues(pos)) <= 64 {
+	if len(b) > 256 && pos.isConstTree() && len(e.ctx.LeafValues(pos)) <= 64 {
 		// a guarded value set: select per leaf instead of per backing byte
 		return e.ctx.mapLeaves(pos, func(x *Term) *Term {
 			if p := x.SVal(); p >= 0 && p < int64(len(b)) {
